@@ -977,3 +977,53 @@ def rule_no_user_value_mutation(db: ProgramDB) -> List[Instance]:
 
 def rule_coverage_the_only(db: ProgramDB) -> List[Instance]:
     return [i for i in rule_coverage_after_completion(db) if "The.evaluate" in i.construct]
+
+
+# ---------------------------------------------------------------------------------- TRAVERSAL-TOTAL
+def rule_traversal_total(db: ProgramDB) -> List[Instance]:
+    """The per-evaluation reset and the result-cache invalidation are recursive traversals of the expression tree
+    (`for child in self._children_: child.<same method>()`).  They reach the state of every node only if the recursion is
+    applied to every child on every path through the loop body - no child is skipped by kind or by a flag."""
+    out = []
+    se = db.cls("SymbolicExpression")
+    n = 0
+    for c in sorted([se] + se.all_subclasses(), key=lambda k: k.qualname):
+        for m in c.methods.values():
+            if m.cls is not c:
+                continue
+            for loop in [l for l in own_nodes(m.node) if isinstance(l, ast.For)]:
+                if not (isinstance(loop.target, ast.Name) and "_children_" in unparse(loop.iter)):
+                    continue
+                tv = loop.target.id
+                rec = [x for st in loop.body for x in ast.walk(st) if isinstance(x, ast.Call) and isinstance(x.func, ast.Attribute)
+                       and isinstance(x.func.value, ast.Name) and x.func.value.id == tv and x.func.attr == m.name]
+                if not rec:
+                    continue
+                n += 1
+                cfg = CFG(m)
+                heads = [nd for nd in cfg.nodes if nd.kind == "for" and nd.stmt is loop]
+                if not heads:
+                    raise AnalysisError(f"{m.short}: loop head not found in the CFG")
+                h = heads[0]
+
+                def is_rec(nd: Node) -> bool:
+                    return nd.ast is not None and any(any(x is r for r in rec) for x in ast.walk(nd.ast)) and nd.kind != "for"
+                skipping = None
+                for e in cfg.succ[h.id]:
+                    if e.kind != "n" or e.label != "iter":
+                        continue
+                    first = cfg.nodes[e.dst]
+                    if is_rec(first):
+                        continue
+                    p = cfg.find_path(first.id, lambda nd: nd.id == h.id, kinds=("n",), blocked=is_rec)
+                    if p is not None or first.id == h.id:
+                        skipping = [e] + (p or [])
+                ok = skipping is None
+                out.append(inst("TRAVERSAL-TOTAL", HOLDS if ok else VIOLATION, m, f"{m.short}[every child]",
+                                f"`{tv}.{m.name}()` is applied to every child on every path through the loop body" if ok else
+                                f"a path through the loop body skips `{tv}.{m.name}()` for some children: "
+                                f"{' '.join(cfg.describe_path(skipping)[:3])} - the state of the skipped subtree (duplicate-suppression "
+                                f"sets, selector state, result caches) survives into the next evaluation", line=loop.lineno))
+    if n == 0:
+        raise AnalysisError("no recursive traversal over self._children_ found")
+    return out
